@@ -277,4 +277,159 @@ theorem sliderTimes_of_nodeTimes (bs : List UInt8) (st : BeatmapState F P) (m : 
 
 end Times
 
+/-! ## 2. doubles: only the upper bound has to be asked of the tail and of the span ends -/
+
+section Ieee
+
+/-- a finite double not above the parse limit `2147483647`. (Against "`≤` limit and not NaN" this excludes `−∞` only; the
+lower bound `−limit ≤ x` is NOT asked.) -/
+def UpTo (x : Float) : Prop := x.isFinite = true ∧ Scalar.le x (maxParseValue : Float) = true
+
+/-- between a time within the limit and the limit, in the IEEE order: within the limit. -/
+theorem inLimit_of_head_le (A X : Float) (hA : InLimit A) (hle : Scalar.le A X = true)
+    (hX : Scalar.le X (maxParseValue : Float) = true) : InLimit X := by
+  have hn : Scalar.isNaN X = false := ((FMO.le_iff _ _).mp hX).1
+  have nL : Scalar.isNaN (-(maxParseValue : Float)) = false := by decide +kernel
+  have low : Scalar.le (-(maxParseValue : Float)) A = true := FMO.le_of_not_lt A _ hA.2.2 nL hA.1
+  exact ⟨FMO.not_lt_of_le _ _ (FMO.le_trans _ _ _ low hle), FMO.not_lt_of_le _ _ hX, hn⟩
+
+/-- **the checkable condition on one slider** (start `A`, computed duration `dur = n·dist/velocity`, `n` spans; everything as
+the code computes it on doubles, `D = dur / n`):
+* the end time `A + dur` is within the limit (the own sample of every mode — `SliderEndInLimit`);
+* the span duration `D` is a number `≥ 0`;
+* the tail time `A + n·D` is finite and `≤ limit`;
+* every span end `(A + k·D) + D` with a repeat (`0 ≤ k`, `k + 2 ≤ n`) is finite and `≤ limit`.
+No lower bound is asked of the tail / span ends: it follows from the IEEE order facts of C20. -/
+structure SliderTailOk (A dur : Float) (n : Int) : Prop where
+  endIn : InLimit (A + dur)
+  span : Scalar.le (0 : Float) (dur / (Scalar.ofInt n : Float)) = true
+  tail : UpTo (A + (Scalar.ofInt n : Float) * (dur / (Scalar.ofInt n : Float)))
+  spans : ∀ k : Int, 0 ≤ k → k + 2 ≤ n →
+    UpTo ((A + (Scalar.ofInt k : Float) * (dur / (Scalar.ofInt n : Float))) + dur / (Scalar.ofInt n : Float))
+
+/-- **every event time of the slider's node events lies between the head and the limit**: under `SliderTailOk` and a start
+within the limit, every `NodeTime` is within the limit (`C20.head_le_tail_float`, `C20.head_le_repeat_float`). -/
+theorem nodeTime_inLimit_float (A dur : Float) (n : Int) (hA : InLimit A) (hn1 : 1 ≤ n) (hn : n < 2 ^ 31)
+    (ok : SliderTailOk A dur n) (t : Float) (ht : NodeTime A dur n t) : InLimit t := by
+  let p : Params Float := ⟨A, dur / (Scalar.ofInt n : Float), 0, 0, 0, n⟩
+  rcases ht with rfl | rfl | rfl | ⟨k, hk0, hk2, rfl⟩
+  · exact ok.endIn
+  · exact hA
+  · exact inLimit_of_head_le A _ hA (C20.head_le_tail_float p (by show 0 ≤ n; omega) hn ok.span ok.tail.1) ok.tail.2
+  · have hu := ok.spans k hk0 hk2
+    exact inLimit_of_head_le A _ hA (C20.head_le_repeat_float p k hk0 (by omega) ok.span hu.1) hu.2
+
+/-- the order statement itself: head `≤` every node time `≤` limit (IEEE `<=`), for the node events of the stream. -/
+theorem nodeTime_between_float (A dur : Float) (n : Int) (hA : InLimit A) (hn1 : 1 ≤ n) (hn : n < 2 ^ 31)
+    (ok : SliderTailOk A dur n) :
+    Scalar.le A (A + (Scalar.ofInt n : Float) * (dur / (Scalar.ofInt n : Float))) = true ∧
+    ∀ k : Int, 0 ≤ k → k + 2 ≤ n →
+      Scalar.le A ((A + (Scalar.ofInt k : Float) * (dur / (Scalar.ofInt n : Float))) + dur / (Scalar.ofInt n : Float)) = true := by
+  let p : Params Float := ⟨A, dur / (Scalar.ofInt n : Float), 0, 0, 0, n⟩
+  exact ⟨C20.head_le_tail_float p (by show 0 ≤ n; omega) hn ok.span ok.tail.1,
+    fun k hk0 hk2 => C20.head_le_repeat_float p k hk0 (by omega) ok.span (ok.spans k hk0 hk2).1⟩
+
+section
+variable [Trig Float32]
+
+/-- `SliderTailOk` of every slider of the map, for the length the curve code returns. -/
+def SliderTailInLimit (m : Beatmap Float Float32) : Prop :=
+  ∀ h ∈ m.hitObjects, ∀ s, h.kind = .slider s → ∀ dist, curveDist s = .ok dist →
+    SliderTailOk h.startTime ((Scalar.ofInt (s.repeatCount + 1) : Float) * dist / s.velocity) (s.repeatCount + 1)
+
+/-- **sliderTimes_osu_catch_float** — on doubles, in osu! and catch mode (and in taiko / mania, where less is needed:
+`sliderTimes_taiko_mania`), the slider residual of a decoded map follows from `SliderTailInLimit`: end within the limit, span
+duration `≥ 0`, tail and span ends finite and `≤ limit`. -/
+theorem sliderTimes_osu_catch_float (bs : List UInt8) (st : BeatmapState Float Float32) (m : Beatmap Float Float32)
+    (h1 : decodeBytes beatmapDecoder bs = .ok st) (h2 : st.finish = .ok m) (ht : SliderTailInLimit m) :
+    SliderTimesInLimit m := by
+  refine sliderTimes_of_nodeTimes bs st m h1 h2 ?_
+  intro h hh s hk dist hd t hnt _
+  have hstart := (C14.decoded_stored bs st m h1 h2 h hh).1
+  have hok := (decoded_objOk bs st m h1 h2 h hh).kind
+  rw [hk] at hok
+  obtain ⟨_, ⟨hr0, hr1⟩, _⟩ := hok
+  exact nodeTime_inLimit_float _ _ _ hstart (by omega) (by omega) (ht h hh s hk dist hd) t hnt
+
+/-- **the checkable condition on one decoded object**: its computed end time — and, for a slider, the tail and the span
+ends — does not exceed the parse limit (finding F26's predicate). Circles: nothing. -/
+def ObjEndOk (h : HitObject Float Float32) : Prop :=
+  match h.kind with
+  | .circle _ => True
+  | .spinner sp => EndOk h.startTime sp.duration
+  | .hold ho => EndOk h.startTime ho.duration
+  | .slider s => ∀ dist, curveDist s = .ok dist →
+      SliderTailOk h.startTime ((Scalar.ofInt (s.repeatCount + 1) : Float) * dist / s.velocity) (s.repeatCount + 1)
+
+def ObjEndsInLimit (m : Beatmap Float Float32) : Prop := ∀ h ∈ m.hitObjects, ObjEndOk h
+
+theorem sliderTail_of_objEnds {m : Beatmap Float Float32} (he : ObjEndsInLimit m) : SliderTailInLimit m := by
+  intro h hh s hk
+  have := he h hh
+  unfold ObjEndOk at this
+  rw [hk] at this
+  exact this
+
+/-- **collectedTimes_all_modes_float** — NO `EndTimeLaws`, any mode: for a decoded `Beatmap<f64/f32>` every collected time is
+within the parse limit as soon as every object's end is (`ObjEndsInLimit`): spinner / hold ends `start + duration` do not
+exceed the limit (`EndOk`; their lower bound is a theorem, `end_time_lower_float`), sliders satisfy `SliderTailOk`. -/
+theorem collectedTimes_all_modes_float (bs : List UInt8) (st : BeatmapState Float Float32) (m : Beatmap Float Float32)
+    (h1 : decodeBytes beatmapDecoder bs = .ok st) (h2 : st.finish = .ok m) (he : ObjEndsInLimit m) :
+    CollectedTimesInLimit m := by
+  intro pts hp p hpm
+  obtain ⟨o, ho, b, r, hr, hpr⟩ := collectAll_mem m _ _ pts hp p hpm
+  obtain ⟨ht, hie⟩ := C14.decoded_numeric_ieee bs st m h1 h2 o ho
+  have hend := he o ho
+  unfold ObjEndOk at hend
+  cases hkd : o.kind with
+  | slider s =>
+    exact sliderTimes_osu_catch_float bs st m h1 h2 (sliderTail_of_objEnds he) o ho s hkd b r hr p hpr
+  | circle c =>
+    unfold collectObject at hr
+    simp only [hkd, pure, Except.pure, Except.ok.injEq] at hr
+    subst hr
+    rw [(collectSample_mem hpr).1]; exact ht
+  | spinner sp =>
+    rw [hkd] at hend hie
+    unfold collectObject at hr
+    simp only [hkd, pure, Except.pure, Except.ok.injEq] at hr
+    subst hr
+    obtain ⟨low, nn⟩ := end_time_lower_float o.startTime sp.duration ht hie.2.1 hie.2.2
+    rw [(collectSample_mem hpr).1]; exact ⟨low, hend, nn⟩
+  | hold ho' =>
+    rw [hkd] at hend hie
+    unfold collectObject at hr
+    simp only [hkd, pure, Except.pure, Except.ok.injEq] at hr
+    subst hr
+    obtain ⟨low, nn⟩ := end_time_lower_float o.startTime ho'.duration ht hie.2.1 hie.2.2
+    rcases List.mem_append.mp hpr with hpr | hpr
+    · rw [(collectSample_mem hpr).1]; exact ⟨low, hend, nn⟩
+    · rw [(collectSample_mem hpr).1]; exact ht
+
+/-- **decoded_repTimingMap_ieee_ends** — `RtTiming.RepTimingMap` of every decoded `Beatmap<f64/f32>` whose objects end within
+the limit (`ObjEndsInLimit`); no law hypothesis, no residual on collected times. -/
+theorem decoded_repTimingMap_ieee_ends (bs : List UInt8) (st : BeatmapState Float Float32)
+    (m : Beatmap Float Float32) (h1 : decodeBytes beatmapDecoder bs = .ok st) (h2 : st.finish = .ok m)
+    (he : ObjEndsInLimit m) : RepTimingMap IeeeRep64 m :=
+  decoded_repTimingMap_partial_ieee bs st m h1 h2 (collectedTimes_all_modes_float bs st m h1 h2 he)
+
+/-- **timing_lines_accepted_decoded_ieee_ends** — C04 for the `[TimingPoints]` block on the IEEE instances, ALL modes: decode
+any bytes to `m`; if every object's computed end time (sliders: end, tail and span ends; span duration `≥ 0`) is within the
+limit, every line of the block `encode_timing_points` writes is accepted by `parse_timing_points` in any decoder state and
+applied as exactly the values written. -/
+theorem timing_lines_accepted_decoded_ieee_ends (bs : List UInt8)
+    (st : BeatmapState Float Float32) (m : Beatmap Float Float32) (h1 : decodeBytes beatmapDecoder bs = .ok st)
+    (h2 : st.finish = .ok m) (he : ObjEndsInLimit m) (t : Str) (h : encodeTimingPoints m = .ok t) :
+    ∃ cp, collectSamples m = .ok cp ∧ t = unlines (str "[TimingPoints]" :: (mapEntries m cp).map Entry.line) ∧
+      (∀ e ∈ mapEntries m cp, ∀ st : TimingPointsState Float Float32,
+        parseTimingPoints st (trimEnd e.line) = (.ok (), applyTpLine st (e.read st.general.defaultSampleBank))) ∧
+      ∀ st : TimingPointsState Float Float32,
+        Accepts (fun s l => ((parseTimingPoints s l).2, (parseTimingPoints s l).1.isOk)) st
+          (((mapEntries m cp).map Entry.line).map trimEnd) :=
+  timing_lines_accepted_decoded_ieee bs st m h1 h2 (collectedTimes_all_modes_float bs st m h1 h2 he) t h
+
+end
+
+end Ieee
+
 end Rosu.C04
